@@ -272,6 +272,9 @@ func pathEq(a, b []PathEl) bool {
 func describe(v Value) string {
 	switch x := v.(type) {
 	case *Term:
+		if x.IsConst() && x.Sort == SInt {
+			return x.Rat.Num().String()
+		}
 		s := x.String()
 		if len(s) > 200 {
 			s = s[:200] + "..."
